@@ -626,3 +626,14 @@ CHECKS["C06"]["text"] += (
 CHECKS["C12"]["text"] += (
     " Bin widths (Doane, percentile) and the default kde spacing must not "
     "depend on invalid values among the selected events.")
+CHECKS["C05"]["text"] += (
+    " Before the repeated call a caller loads the table itself and "
+    "overwrites the array and metadata it was handed.")
+CHECKS["C15"]["text"] += (
+    " Plain and inverted copies of inverted and non-inverted filters are "
+    "classified as well.")
+CHECKS["C18"]["text"] += (
+    " Inertia ratios are also computed for float64 contours, whose arrays "
+    "must be left unchanged.")
+CHECKS["C11"]["text"] += (
+    " The empty byte string is among the rejected inputs.")
